@@ -97,6 +97,11 @@ impl Compiler {
         Self::compile_with_composer(pp, label, &composer)
     }
 
+    #[cfg(feature = "verif")]
+    pub(crate) fn verif_max_constraints(pp: &PublicParameters) -> usize {
+        Self::max_constraints(pp)
+    }
+
     fn max_constraints(pp: &PublicParameters) -> usize {
         let available = pp
             .max_degree()
